@@ -20,7 +20,7 @@
    with p processes.  C03_arm_given / C03_haar_arm tie arm_full back to arm_segs, so the
    first-layer theorems speak about what the second layer computes. *)
 From CNV Require Import Base.Prelude Base.Str Model.Arms Model.Segment Spec.Segments
-  Proofs.SegFields Proofs.SegChrom Proofs.SegProps Proofs.SegSlices Proofs.SegByArm Proofs.SegParallel Proofs.SegVariants Proofs.SegHaar Proofs.SegTable Gen.Params Gen.SegDefaults.
+  Proofs.SegFields Proofs.SegChrom Proofs.SegProps Proofs.SegSlices Proofs.SegByArm Proofs.SegParallel Proofs.SegVariants Proofs.SegHaar Proofs.SegTable Gen.Params Gen.SegDefaults Gen.FnSegTransfer Proofs.FnSegTransfer.
 
 (* ---- per-arm methods: none, haar (cbs) ------------------------------------- *)
 
@@ -389,3 +389,22 @@ Example C03_ex_hmm :
   map (fun s => (s_lo s, s_hi s, s_probes s))
       (chrom_hmm_segs false false (mkChrom "chr2" (flag_bins false (0 # 1) ex_bins []) [])) = [(100, 400, 2)].
 Proof. vm_compute. reflexivity. Qed.
+
+(* ---- loop tie: ONE ITERATION of transfer_fields' aggregation loop, translated from the Python source on every
+   run (Gen/FnSegTransfer.v fn_transfer_step): the gene / weight / depth stored at row i.  With the model's
+   aggregates of the selected bins it is exactly what `fill` receives for that row *)
+Theorem C03_source_transfer_step : forall i bc pm (sp : list bin) s names,
+  sum_weights sp = Some s ->
+  fn_transfer_step i true s (Qred (qdot (map b_depth sp) (map wt0 sp) / s)) bc pm (kept_genes names)
+  = (gene_field names, s, agg_depth sp).
+Proof. exact source_transfer_weighted. Qed.
+
+(* the gene column whatever the weights: "-" when no kept name is left, else the kept names joined by "," *)
+Theorem C03_source_transfer_gene : forall i hw ws wm bc pm names,
+  fst (fst (fn_transfer_step i hw ws wm bc pm (kept_genes names))) = gene_field names.
+Proof. exact source_transfer_gene. Qed.
+
+(* a table without a weight column: the bin count and the plain mean *)
+Theorem C03_source_transfer_unweighted : forall i ws wm bc pm names,
+  fn_transfer_step i false ws wm bc pm (kept_genes names) = (gene_field names, inject_Z bc, pm).
+Proof. exact source_transfer_unweighted. Qed.
